@@ -76,6 +76,7 @@ package simpleshell
 //@ func CmdShell.SetInput(c, in)
 //@   locals c in
 //@   props C14
+//@   modifies c.cmd.Stdin
 //@   nilable in
 //@   requires hascmd: c.cmd != nil
 //@   ensures stdin_is_the_given_reader: c.cmd.Stdin == in
